@@ -497,6 +497,11 @@ class CommandBase:
         params = {}
 
         for param in cls.schema:
+            if not data and param.optional:
+                # If we're out of data and the parameter is optional,
+                # we're done: it was not sent (a list type would otherwise
+                # deserialize the empty data to an empty list)
+                break
             try:
                 if issubclass(param.type, t.CStruct):
                     params[param.name], data = param.type.deserialize(
